@@ -78,6 +78,56 @@ Proof.
   intros i Hi; repeat (destruct Hi as [<-|Hi]); try contradiction; rewrite ?app_length; cbn [length]; lia.
 Qed.
 
+(* phase 2: a result is made of new buffers and of the caller buffers listed by [may_alias] only *)
+Lemma in_seq_combine_l {B} (l : list B) a n i x : In (i, x) (combine (seq a n) l) -> (a <= i)%nat.
+Proof. intros H. apply in_combine_l in H. apply in_seq in H. lia. Qed.
+
+Definition RA (h : heap) (obs : list obj) (e : list value) (c : list (key * cent)) (g : Z) (o : op) cvs : Prop :=
+  forall i, In i (res_slots (fst (main K (mkstate h obs e c g) o cvs)) (o_res (snd (main K (mkstate h obs e c g) o cvs)))) ->
+  In i (may_alias (mkstate h obs e c g) o) \/ (length h <= i)%nat.
+
+Lemma alias_mul h obs e c g p w cvs : RA h obs e c g (OMul p w) cvs.
+Proof.
+  unfold RA. cbn [main may_alias]. unfold do_mul.
+  destruct (getobj _ p) as [[jp [a d m tl nseg kind| |]]|]; try (cbn; intros i []; fail).
+  destruct (getobj _ w) as [[jw [| fs |]]|]; try (cbn; intros i []; fail).
+  unfold alloc_list, push_obj, ret, res_slots. cbn [hp ob env cache rng fst snd o_res with_hp with_ob with_env].
+  rewrite nth_error_app_len. cbn [oslots]. intros i Hi. right. rewrite map_map in Hi. cbn in Hi.
+  apply in_map_iff in Hi as ((x & y) & <- & Hx). cbn. eapply in_seq_combine_l; eauto.
+Qed.
+Lemma alias_prop h obs e c g w z ks cvs : RA h obs e c g (OPropDft w z ks) cvs.
+Proof.
+  unfold RA. cbn [main may_alias]. unfold do_prop_dft.
+  destruct (getobj _ w) as [[jw [| fs |]]|]; try (cbn; intros i []; fail).
+  unfold alloc_list, push_obj, ret, res_slots. cbn [hp ob env cache rng fst snd o_res with_hp with_ob with_env].
+  rewrite nth_error_app_len. cbn [oslots]. intros i Hi. right. rewrite map_map in Hi. cbn in Hi. rewrite map_id in Hi.
+  apply in_seq in Hi. lia.
+Qed.
+Lemma alias_multilt h obs e c g w t cvs : RA h obs e c g (OMulTilt w t) cvs.
+Proof.
+  unfold RA. cbn [main may_alias].
+  destruct (getobj _ w) as [[jw [| fs |]]|]; try (cbn; intros i []; fail).
+  unfold alloc_list, push_obj, ret, res_slots. cbn [hp ob env cache rng fst snd o_res with_hp with_ob with_env].
+  rewrite nth_error_app_len. cbn [oslots]. intros i Hi. right. rewrite map_map in Hi. cbn in Hi.
+  apply in_map_iff in Hi as ((x & y) & <- & Hx). cbn. eapply in_seq_combine_l; eauto.
+Qed.
+
+Lemma main_res_alias h obs e c g o cvs : RA h obs e c g o cvs.
+Proof.
+  destruct o; try apply alias_mul; try apply alias_prop; try apply alias_multilt;
+  unfold RA; cbn [main may_alias]; unfold res_slots; unfold_all;
+    repeat (rewrite ?nth_error_lset_app_len, ?nth_error_app_len; dmatch; leaf);
+    rewrite ?nth_error_lset_app_len, ?nth_error_app_len;
+    repeat match goal with
+           | H : nth_error (lset ?l ?j ?x) ?j = _, H2 : nth_error ?l ?j = Some _ |- _ =>
+               rewrite nth_lset_same in H by (apply nth_error_Some; congruence)
+           end;
+    repeat match goal with H : Some _ = Some _ |- _ => injection H as <- | H : Some _ = None |- _ => discriminate H
+                      | H : None = Some _ |- _ => discriminate H end;
+    cbn [oslots In app map f_data]; intros i Hi; repeat (destruct Hi as [<-|Hi]); try contradiction;
+    rewrite ?app_length, ?lset_length; cbn [length f_data]; try (right; lia); try (left; cbn; rw; cbn; auto; fail).
+Qed.
+
 (* ---- the same at the level of whole calls (cache phase included) ---- *)
 Lemma cache_phase_public s o : same_public s (fst (cache_phase s o)).
 Proof.
@@ -149,6 +199,21 @@ Proof.
   intros M H. rewrite <- (same_public_makes_new _ _ o SP) in M. destruct s1 as [h obs e c g].
   destruct (main_new_plane h obs e c g o cvs M H) as (R & S). destruct SP as [[l Hl] Ho _ _]. cbn in *. subst obs.
   split; auto. intros i Hi. specialize (S i Hi). rewrite Hl, app_length in S. lia.
+Qed.
+
+Lemma same_public_may_alias s s' o : same_public s s' -> may_alias s' o = may_alias s o.
+Proof.
+  intros SP. destruct o; cbn; auto; rewrite ?(same_public_getarr _ _ _ SP), ?(same_public_getobj _ _ _ SP); auto.
+  all: destruct amp || destruct out || idtac; try destruct opd; rewrite ?(same_public_getarr _ _ _ SP); auto.
+Qed.
+
+Lemma step_res_alias s o i :
+  In i (res_slots (fst (step K s o)) (o_res (snd (step K s o)))) -> In i (may_alias s o) \/ (length (hp s) <= i)%nat.
+Proof.
+  unfold step. pose proof (cache_phase_public s o) as SP. destruct (cache_phase s o) as [s1 cvs]. cbn [fst] in SP.
+  intros H. pose proof (same_public_may_alias _ _ o SP) as Ea. destruct s1 as [h obs e c g].
+  destruct (main_res_alias h obs e c g o cvs i H) as [A|A]; [left; congruence|right].
+  destruct SP as [[l Hl] _ _ _]. cbn in Hl. rewrite Hl, app_length in A. lia.
 Qed.
 
 End Deep.
